@@ -120,6 +120,9 @@ pub fn gen_workload(sub: u64) -> Workload {
                     have[rng.below(have.len())]
                 }
             }
+            // a name that the --pre-glob selects only if case is ignored: searched directly
+            // (--glob-case-insensitive, which some of these workloads pass, is about -g only)
+            ("pre-glob", false) if rng.chance(1, 2) => "SEL",
             _ => "txt",
         };
         let through_child = through_child && !(kind == "zreal" && ext == "txt");
@@ -263,9 +266,15 @@ pub fn run_workload(sub: u64, acc: &mut Acc, ctx: &Ctx, _thorough: bool) {
     let mut path_prefix = None;
     let scripts: Vec<String> = files.iter().filter(|f| f.through_child).map(|f| format!("{}={}", f.path.rsplit('/').next().unwrap(), script_for(f, &shadow))).collect();
     env.push(("CHILDSTUB_SCRIPTS".into(), scripts.join(";")));
+    env.push(("CHILDSTUB_STRICT".into(), "1".into()));
     match w.kind.as_str() {
         "pre" => args.extend(["--pre".into(), STUB.into()]),
-        "pre-glob" => args.extend(["--pre".into(), STUB.into(), "--pre-glob".into(), "*.sel".into()]),
+        "pre-glob" => {
+            args.extend(["--pre".into(), STUB.into(), "--pre-glob".into(), "*.sel".into()]);
+            if sub % 3 != 0 {
+                args.push("--glob-case-insensitive".into());
+            }
+        }
         // only negated globs: everything that is not excluded goes through the command
         "pre-glob-negated" => args.extend(["--pre".into(), STUB.into(), "--pre-glob".into(), "!*.txt".into()]),
         "zstub" => {
